@@ -38,8 +38,11 @@ def validate_program(em, reg, prog, out, ctx):
             if fname is None:
                 cands = [f for f, rec in table.items() if rec["key"] is None and
                          emitcheck.fold(f.rstrip("_"), cu) == emitcheck.fold(key, cu)]
-                if key[:1].isdigit():
-                    cands = [f for f, rec in table.items() if rec["key"] is None and f.startswith(emitcheck.ONES[int(key[0])] + "_")]
+                import re as _re
+                from unidecode import unidecode as _ud
+                stripped = _re.sub(r"\W", "", _ud(key) if cu else key)
+                if stripped[:1].isdigit():      # documented: a leading digit (after removing non-word characters) is spelled out
+                    cands = [f for f, rec in table.items() if rec["key"] is None and f.startswith(emitcheck.ONES[int(stripped[0])] + "_")]
                 fname = cands[0] if len(cands) == 1 else (key if key in table else None)
             if not out.check(fname is not None, "key_without_field",
                              lambda: f"[{tag}] {cls.__name__}: key {key!r} has no identifiable field among {list(table)} ({ctx()})\n{em.text}",
@@ -115,12 +118,15 @@ def parts(tier):
             CH("options", "vflib.props.c04:scen_tv", {"pool": "KEY_POOL_QUICK", "styled": "k3", "options": True,
                                                       "templates": ["nested_object", "list_of_objects", "optional_pseudo", "two_similar_children", "recursive"]},
                shards=16, timeout=170, path_timeout=30),
+            CH("odd_characters", "vflib.props.c04:scen_tv", {"pool": "KEY_POOL_ODD", "styled": "k3",
+                                                             "templates": ["nested_object", "list_of_objects", "odd_values_nested", "odd_string_values"]},
+               shards=8, timeout=170, path_timeout=30),
         ]
     from vflib import progsym
     return [
-        CH("k1k2", "vflib.props.c04:scen_tv", {"pool": "KEY_POOL_FULL", "styled": "k1k2", "templates": progsym.TEMPLATES_FULL}, shards=16, timeout=900, path_timeout=30),
+        CH("k1k2", "vflib.props.c04:scen_tv", {"pool": "KEY_POOL_FULL", "styled": "k1k2", "templates": progsym.TEMPLATES_FULL}, shards=16, timeout=400, path_timeout=30),
         CH("options", "vflib.props.c04:scen_tv", {"pool": "KEY_POOL_FULL", "styled": "k3", "options": True, "templates": progsym.TEMPLATES_FULL},
-           shards=16, timeout=700, path_timeout=30),
+           shards=16, timeout=400, path_timeout=30),
     ]
 
 
